@@ -124,6 +124,12 @@ class Profile:
     def probes(self, c, P):
         pass
 
+    def hang_is_judged(self, pre, R, op, kobj):
+        try:
+            return kobj.spec(pre, R, op, None).judged
+        except Exception:       # noqa: BLE001
+            return False
+
 
 def bump(P, k, n=1):
     P[k] = P.get(k, 0) + n
@@ -389,6 +395,10 @@ class Registry(Profile):
         k = c.op["k"]
         if not c.exp.judged:
             return None
+        if k in ("prune", "expand"):
+            v = self._discarders(c, k)
+            if v:
+                return v
         v = check_exp("C14", k, (RG,), c.exp, c.pre, c.post)
         if v:
             if v.clause == "E":
@@ -397,6 +407,8 @@ class Registry(Profile):
                 v.sig = "%s:%s" % (k, "still-registered" if v.detail.get("after") == "True" else "unregistered")
                 if k == "delete" and c.exp.notes.get("partial"):
                     v.sig += ":after-partial-unregister"
+                if k == "replace_child" and c.exp.notes.get("old_unregistered"):
+                    v.sig += ":below-node-unregistered-earlier"
             else:
                 v.clause = "F1"
                 v.sig = "%s:%s" % (k, "lost-registration" if v.detail.get("before") == "True" else "gained-registration")
@@ -422,6 +434,32 @@ class Registry(Profile):
                     continue
                 return Violation("C14", "F2", "%s:foreign-registry-entry" % k,
                                  "registry key %s maps to %s" % (short(key), short(h)))
+        return None
+
+    def _discarders(self, c, k):
+        """E5: prune and expand, whether they return or raise: what left the
+        tree left the registry, what stayed (or arrived) is registered."""
+        pre, post, n = c.pre, c.post, c.R["n"]
+        after = set(post.subtree(n))
+        for h in pre.subtree(n):
+            if h not in after:
+                if post.cells[h][RG]:
+                    # was a node between the discarded root and h unregistered on its own before?
+                    chain = [h] + pre.ancestors(h)
+                    up = [x for x in chain[1:] if x not in after]
+                    sig = "%s:discarded-still-registered" % k
+                    if any(not pre.cells[x][RG] for x in up):
+                        sig += ":below-node-unregistered-earlier"
+                    return Violation("C14", "E5", sig,
+                                     "node h%d (%s) left the tree in %s but is still registered" % (h, pre.name(h), k),
+                                     {"discarded_ancestors": up})
+            elif pre.cells[h][RG] and not post.cells[h][RG]:
+                return Violation("C14", "E5", "%s:kept-unregistered" % k,
+                                 "node h%d (%s) is still in the tree after %s but lost its registration" % (h, pre.name(h), k))
+        for h in after:
+            if h >= c.nh and not post.cells[h][RG]:
+                return Violation("C14", "E5", "%s:new-node-unregistered" % k,
+                                 "node h%d put into the tree by %s is not registered" % (h, k))
         return None
 
     def probes(self, c, P):
@@ -620,9 +658,10 @@ class ReadOnly(Profile):
             return Violation("C11", "F1", "%s:modifies:registry" % what,
                              "read-only %s changed the key set of the node registry" % what)
         # E1: order independence -- same question, no mutation in between, same answer
-        key = c.state.get("ro_key")
+        from .emlops import ro_key, ro_answer
+        key = ro_key(c.op, c.R)
         if key is not None:
-            ans = c.state.get("ro_answer")
+            ans = ro_answer(c.W, c.out)
             old = st["memo"].get(key)
             if old is None:
                 st["memo"][key] = ans
